@@ -74,6 +74,11 @@ SUBCACHE = cfgd(NS=1, NG=2, InitSBases='<-SB_One', InitRBases='<-RB_Two',
                 SubKeys='<-SubKeysSubCache', LookKeys='<-LookKeysSubCache',
                 ValMode='"any"', EqClass='<-Eq12', MaxLive=3, MaxDepth=5)
 
+EPCACHE = cfgd(NS=1, NG=2, InitSBases='<-SB_One', InitRBases='<-RB_Two',
+               Names='<-NamesE', Muts='{"reg","unreg"}', Queries='{"lookup"}',
+               RegKeys='<-RegKeysChain', LookKeys='<-LookKeysChain',
+               Vals='{1,2}', ValMode='"any"', MaxLive=2, MaxDepth=6)
+
 INVS = ['TypeOK', 'ExtOK', 'InvWalkIsBest', 'InvEntryPointsAgree',
         'InvSubsExact', 'CacheTransparent', 'RoIsFresh']
 
@@ -218,9 +223,19 @@ PLAN = {
 }
 PLAN['C08'] = {
     'quick': [PLAN['C05']['quick'][0], PLAN['C05']['quick'][1],
+              ('entry points x cache d6 push', 'edges', EPCACHE,
+               dict(sb='SB_One', rb='RB_Two')),
+              ('entry points x cache d6 verify', 'edges',
+               dict(EPCACHE, Flavour='"verify"'),
+               dict(sb='SB_One', rb='RB_Two')),
               ('order<=2', 'states', ORDER,
                dict(sb='SB_Diamond', rb='RB_One', sample=1500))],
     'thorough': PLAN['C05']['thorough'][:3] + [
+        ('entry points x cache d8 push', 'edges', dict(EPCACHE, MaxDepth=8),
+         dict(sb='SB_One', rb='RB_Two')),
+        ('entry points x cache d8 verify', 'edges',
+         dict(EPCACHE, MaxDepth=8, Flavour='"verify"'),
+         dict(sb='SB_One', rb='RB_Two')),
         ('order<=3', 'states', dict(ORDER, MaxLive=3),
          dict(sb='SB_Diamond', rb='RB_One'))],
 }
@@ -365,6 +380,17 @@ def run(pid, tier, v, build, plan=None):
                     steps.append({'act': e['act'], 'obs': e['obs']})
                     cases.append({'steps': steps,
                                   'copy': opt.get('copy', False)})
+                    if pid == 'C08' and e['act']['op'] == 'lookup':
+                        # the entry point that asks first after the history
+                        # is part of the case: one case per entry point
+                        vias = ['lookup', 'lookup_list', 'lookup_lazy',
+                                'multi']
+                        if len(e['act']['req']) == 1:
+                            vias += ['lookup1', 'hook', 'queryAdapter']
+                        for via in vias:
+                            cases.append({'steps': steps[:-1] + [
+                                {'act': dict(e['act'], via=via),
+                                 'obs': e['obs']}], 'copy': False})
                     if len(path) >= 3:
                         v.cov['distinct_nontrivial'] += 1
                 # dense variant: probe everything after every step
